@@ -114,6 +114,8 @@ def group_runs(g, tier):
             H('async:phys', walks=30 * k, nz=True), H('async:phys', b=8193, walks=8 * k, nz=True), H('async:ovl(phys,phys)', walks=10 * k, nz=True),
             H('async:phys', walks=4, nz=False),   # keeps the known finding (zero-length read on async physical handles) under observation
         ]
+    if g == 'hostile':
+        return [dict(kind='hostile', cfgs='alt(zr,mem);alt(zr/zs,phys);alt(zr,alt(zs,mem));alt(zr/zs/zt,ovl(mem,mem));phys;alt(zr,phys);alt(zr,ovl(phys,mem))', sample=150 if q else 5000, tspec='Trace_Confine')]
     if g == 'times':
         T = 'set_time,append_file,create_file,create_dir,remove_file'
         k = 1 if q else 25
@@ -213,6 +215,13 @@ def run_group(g, tier, seed, use_cache=True):
             run_mc(mod, cfg)
             s = harness(['awalk', '--lts', ensure_lts(mod, cfg + '_emit'), '--cfgs', r['cfgs'], '--seed', seed * 1000 + i, '--trees', r['trees'], '--dense', r['dense'],
                          '--pair-frac', r['pair_frac'], '--out', out])
+        elif r['kind'] == 'hostile':
+            mc = run_mc('MC_Join_q', 'MC_Join_q')
+            if not mc['ok']:
+                raise ToolError('model checking of MC_Join_q failed:\n%s' % mc.get('tail', ''))
+            mcs['MC_Join_q'] = mc
+            cases = ensure_lts('MC_Join_q', 'MC_Join_q_emit', tags=('CASE',))
+            s = harness(['hostile', '--cfgs', r['cfgs'], '--cases', cases, '--seed', seed, '--sample', r['sample'], '--out', out])
         elif r['kind'] == 'emb':
             mc = run_mc('MC_ReadOnly', 'MC_ReadOnly')
             if not mc['ok']:
@@ -295,6 +304,11 @@ def run_group(g, tier, seed, use_cache=True):
                     if len(ops) > 6:
                         break
                     continue
+                if e['ev'] == 'hostile':
+                    ops.append({k: e[k] for k in ('cfg', 'arg', 'join', 'prefix', 'ucalls')})
+                    if len(ops) > 3:
+                        break
+                    continue
                 if e['ev'] == 'awalk':
                     ops.append({k: e[k] for k in ('cfg', 'plan', 'items', 'polls', 'points')})
                     if len(ops) > 2:
@@ -341,8 +355,8 @@ PROPS = {
     'C03': dict(groups=['tree', 'alt', 'ovl']),
     'C05': dict(groups=['tree', 'alt', 'ovl']),
     'C12': dict(groups=['tree', 'alt', 'ovl', 'join']),
-    'C13': dict(groups=['tree', 'alt', 'ovl', 'join', 'handles']),
-    'C07': dict(groups=['alt']),
+    'C13': dict(groups=['tree', 'alt', 'ovl', 'join', 'handles', 'hostile', 'emb']),
+    'C07': dict(groups=['alt', 'hostile']),
     'C08': dict(groups=['ovl']),
     'C09': dict(groups=['ovl']),
     'C06': dict(groups=['join']),
@@ -445,7 +459,10 @@ MANIFEST_TEXT = {
                 note=_NOTE, technique='TLA+ invariant WellFormed (model) + WellFormedObs on every trace event', ref='DESIGN.md 6 C03'),
     'C05': dict(level=_LVL + 'Conjunct observers (ObserversAgree, WalkAgrees) relates the observers to each other on every event without reference to the model state.',
                 note=_NOTE, technique='TLA+ ObserversAgree on every trace event', ref='DESIGN.md 6 C05'),
-    'C07': dict(level=_LVL + 'Altroot configurations execute every call also as the twin call on P/q in a second identical world; TLC checks twin equality, confinement of the recorded inner calls and that the outside snapshot is unchanged.',
+    'C07': dict(level=_LVL + 'Altroot configurations execute every call also as the twin call on P/q in a second identical world; TLC checks twin equality, confinement of the recorded inner calls and that the outside snapshot is unchanged. '
+                'Confinement against hostile path expressions: a catalogue of escapes ("..", absolute and doubled-slash segments, encoded dots, ...) plus a seeded sample of the argument strings TLC enumerated for C06 is joined onto the root of altroot filesystems '
+                '(P of depth 1-3 over memory, physical, altroot, overlay) and of a PhysicalFS inside a sandbox with canaries; 16 operations are applied to each result; TLC (Trace_Confine) checks that every inner call stays below P, the outside snapshot '
+                '(std::fs for the sandbox) is unchanged and no read returned canary bytes.',
                 note=_NOTE, technique='TLA+ trace validation with twin execution (TwinEqual, Confined, OutsideUnchanged)', ref='DESIGN.md 6 C07'),
     'C08': dict(level=_LVL + 'Every overlay layer is wrapped in a recording filesystem; TLC checks on every event that lower layers are unchanged (structure, bytes, times) and that observers issue no mutating call.',
                 note=_NOTE, technique='TLA+ trace validation (LowerUnchanged, ObserversPure) over recorded layer snapshots and call logs', ref='DESIGN.md 6 C08'),
